@@ -55,10 +55,10 @@ Qed.
 Lemma accepts_inv : forall p a, accepts p a = true ->
   (a = Types.CNil /\ exists r, p = Types.CRec r) \/ (a <> Types.CNil /\ p = a).
 Proof.
-  intros p a H. destruct a, p; simpl in H; try discriminate;
-    try (left; split; [reflexivity|eauto]; fail);
-    right; (split; [discriminate|]); symmetry; apply cty_eqb_eq; simpl; rewrite ?N.eqb_sym; auto.
-  simpl. rewrite N.eqb_sym. exact H.
+  intros p a H. destruct a.
+  6: { left. split; auto. destruct p; simpl in H; try discriminate. eauto. }
+  all: right; (split; [discriminate|]); destruct p; simpl in H; try discriminate;
+       apply cty_eqb_eq; simpl; exact H.
 Qed.
 
 Lemma accepts_nonnil : forall p a, accepts p a = true -> a <> Types.CNil -> p = a.
